@@ -196,7 +196,9 @@ Proof.
   assert (Hidx : reread_index l = Some (nth 0%nat (l_data l) [])).
   { apply (reread_index_some l (List.length crest)). rewrite Hcl. unfold cn. rewrite EC. reflexivity. }
   rewrite Hidx in *.
-  pose proof (second_need fstr numeq fhex ro hs l pit cn pn T HlW Hdata Hc EP Hstop Hrefl) as Hneed.
+  assert (Hcur : s_items (l_curves l) <> []).
+  { intro E0. rewrite E0 in Hcl. unfold cn in Hcl. rewrite EC in Hcl. discriminate Hcl. }
+  pose proof (second_need fstr numeq fhex ro hs l pit cn pn T HlW Hdata Hc EP Hstop Hrefl Hcur) as Hneed.
   (* the header of the second write *)
   assert (HwI : forall b, wo_wrap o = Some b -> expected_item fstr KVersion (o_mcase ro) wit = wrap_item b).
   { intros b Hb. rewrite Hb in HW. apply hitem_eqb_eq. exact HW. }
